@@ -117,6 +117,11 @@ B("guard-checked_copy-no-len", ["C08"],
   [("src/bytes.rs", "    pub fn checked_copy_be_bytes_to(&self, buf: &mut [u8]) -> Option<usize> {\n        if buf.len() < Self::BYTES {\n            return None;\n        }\n",
     "    pub fn checked_copy_be_bytes_to(&self, buf: &mut [u8]) -> Option<usize> {\n")], "checked_copy_be")
 B("sibling-ct_gt-swapped", ["C20"], [("src/support/subtle.rs", "            greater |= equal & l.ct_gt(r);", "            greater |= equal & r.ct_gt(l);")], "ct_gt")
+B("sibling-select-swapped", ["C20"], [("src/support/subtle.rs", "            *limb = u64::conditional_select(a, b, choice);", "            *limb = u64::conditional_select(b, a, choice);")], "conditional_select")
+B("sibling-ct_lt-zip-misaligned", ["C20"], [("src/support/subtle.rs", "            .zip(rhs.as_limbs().iter().rev())\n        {\n            less |=", "            .zip(rhs.as_limbs().iter())\n        {\n            less |=")], "ct_lt|positions")
+N("sibling-ct_gt-via-u64-ct_lt", ["C20"], [("src/support/subtle.rs", "            greater |= equal & l.ct_gt(r);", "            greater |= equal & r.ct_lt(l);")])
+N("sibling-ct_gt-delegates-to-ct_lt", ["C20"], [("src/support/subtle.rs", "        let mut equal = Choice::from(1); // True\n        let mut greater = Choice::from(0); // False\n\n        // Iterate limbs in big-endian order.\n        for (l, r) in self\n            .as_limbs()\n            .iter()\n            .rev()\n            .zip(rhs.as_limbs().iter().rev())\n        {\n            greater |= equal & l.ct_gt(r);\n            equal &= l.ct_eq(r);\n        }\n        greater\n", "        rhs.ct_lt(self)\n")])
+N("sibling-ct_eq-full-range-index", ["C20"], [("src/support/subtle.rs", "        self.as_limbs().ct_eq(rhs.as_limbs())", "        self.limbs[..].ct_eq(&rhs.limbs[..])")])
 B("codec-ssz-big-endian", ["C16"], [("src/support/ssz.rs", "        buf.extend_from_slice(&self.as_le_bytes());", "        buf.extend_from_slice(&self.to_be_bytes_vec());")], "ssz")
 N("codec-scale-to_le_bytes_vec", ["C16"], [("src/support/ssz.rs", "        buf.extend_from_slice(&self.as_le_bytes());", "        buf.extend_from_slice(&self.to_le_bytes_vec());")])
 B("macro-pad_limbs-no-mask-test", ["C19"], [("ruint-macro/src/lib.rs", "    if limbs.len() > num_limbs || limbs.last().copied().unwrap_or(0) > mask {", "    let _ = mask;\n    if limbs.len() > num_limbs {")], "C19")
@@ -211,6 +216,14 @@ B("fixedlen-ssz-accepts-short", ["C17"],
 N("fixedlen-ssz-match-form", ["C17", "C16"],
   [("src/support/ssz.rs", "        if bytes.len() != nbytes(BITS) {\n            return Err(DecodeError::InvalidByteLength {\n                len:      bytes.len(),\n                expected: nbytes(BITS),\n            });\n        }\n",
     "        let expected = nbytes(BITS);\n        match bytes.len() == expected {\n            true => {}\n            false => {\n                return Err(DecodeError::InvalidByteLength {\n                    len: bytes.len(),\n                    expected,\n                })\n            }\n        }\n")])
+
+# ---- R-GUARD/slice-length (C08): Some only for len <= BYTES (seed Q4/C08, re-created)
+B("slicelen-fast-path-before-length-check", ["C08"],
+  [("src/bytes.rs", "    pub const fn try_from_be_slice(bytes: &[u8]) -> Option<Self> {\n        if bytes.len() > Self::BYTES {\n            return None;\n        }\n\n        if Self::BYTES % 8 == 0 && bytes.len() == Self::BYTES {",
+    "    pub const fn try_from_be_slice(bytes: &[u8]) -> Option<Self> {\n        if bytes.len() > Self::BYTES && bytes.len() != LIMBS * 8 {\n            return None;\n        }\n\n        if bytes.len() == LIMBS * 8 {")], "try_from_be_slice|length")
+N("slicelen-check-spelled-backwards", ["C08"],
+  [("src/bytes.rs", "    pub const fn try_from_be_slice(bytes: &[u8]) -> Option<Self> {\n        if bytes.len() > Self::BYTES {\n            return None;\n        }\n",
+    "    pub const fn try_from_be_slice(bytes: &[u8]) -> Option<Self> {\n        let n = bytes.len();\n        if !(n <= Self::BYTES) {\n            return None;\n        }\n")])
 
 # ---- R-TOTAL/overflow-checks on C16 (defect F16, re-created)
 B("ovf-scale-size_hint-256-bit-formula", ["C16"],
